@@ -88,6 +88,7 @@ type World struct {
 	Disk   *kern.Disk
 	Cwd    string
 	CPUs   int
+	GoMaxProcs int // 0 = same as CPUs
 	API    API
 	Args   []string // APIMain: command line after the program name
 	Files  []string // library APIs
@@ -159,7 +160,7 @@ func RunLint(w *World, c *Chooser, o RunOpts) *LintResult {
 			res.ModeSig = (res.ModeSig ^ 0xff) * 1099511628211
 		}
 	}
-	cfg := kern.Config{Src: src, Disk: w.Disk, Cwd: w.Cwd, CPUs: w.CPUs, Tools: w.Tools, Faults: w.Faults,
+	cfg := kern.Config{Src: src, Disk: w.Disk, Cwd: w.Cwd, CPUs: w.CPUs, GoMaxProcs: w.GoMaxProcs, Tools: w.Tools, Faults: w.Faults,
 		MaxSteps: o.MaxSteps, KeepTrace: o.KeepTrace, NoPreempt: o.Canonical || c == nil}
 	rep := o.Repeat
 	if rep < 1 {
@@ -274,6 +275,7 @@ func lintOnce(w *World, res *LintResult, shared *sharedLinter) {
 type WorldJSON struct {
 	Cwd    string            `json:"cwd"`
 	CPUs   int               `json:"cpus"`
+	GoMaxProcs int           `json:"gomaxprocs,omitempty"`
 	API    API               `json:"api"`
 	Args   []string          `json:"args,omitempty"`
 	Files  []string          `json:"files,omitempty"`
@@ -288,7 +290,7 @@ type WorldJSON struct {
 
 // Materialise renders the world for a replay file or an evidence sample.
 func (w *World) Materialise() *WorldJSON {
-	j := &WorldJSON{Cwd: w.Cwd, CPUs: w.CPUs, API: w.API, Args: w.Args, Files: w.Files, Opts: w.Opts, Stdin: w.Stdin,
+	j := &WorldJSON{Cwd: w.Cwd, CPUs: w.CPUs, GoMaxProcs: w.GoMaxProcs, API: w.API, Args: w.Args, Files: w.Files, Opts: w.Opts, Stdin: w.Stdin,
 		Faults: w.Faults, Disk: map[string]string{}, Note: w.Note}
 	for p, c := range w.Disk.Files {
 		j.Disk[p] = string(c)
@@ -340,7 +342,7 @@ func (w *World) Hash() uint64 {
 	for _, p := range sortedKeys(w.Disk.Links) {
 		fmt.Fprintf(h, "L%s>%s|", p, w.Disk.Links[p])
 	}
-	fmt.Fprintf(h, "|%s|%d|%s|%q|%q|%+v|%q", w.Cwd, w.CPUs, w.API, w.Args, w.Files, w.Opts, w.Stdin)
+	fmt.Fprintf(h, "|%s|%d|%d|%s|%q|%q|%+v|%q", w.Cwd, w.CPUs, w.GoMaxProcs, w.API, w.Args, w.Files, w.Opts, w.Stdin)
 	for _, f := range w.Faults {
 		fmt.Fprintf(h, "|%+v", f)
 	}
